@@ -39,7 +39,7 @@ try:
         res["confirmed"] = res["client_on_clean_crate"].startswith("rejected") and res["client_with_patch"] == "accepted" and res["pinned_suite_with_patch"] == "passes"
     else:
         shutil.copy(os.path.join(dst, "demo.rs"), os.path.join(wt, "tests", "demo_seed.rs"))
-        rc, o = sh("cargo test --offline%s --test demo_seed 2>&1 | tail -20" % fflag, cwd=wt)
+        rc, o = sh("cargo test --offline%s --test demo_seed -- --test-threads=1 2>&1 | tail -20" % fflag, cwd=wt)
         res["demo_on_clean_tree"] = "passes" if re.search(r"test result: ok", o) and "FAILED" not in o else "FAILS: " + o[-400:]
         rc, o = sh("git apply %s" % os.path.join(dst, "patch.diff"), cwd=wt)
         res["patch_applies"] = rc == 0
@@ -52,7 +52,7 @@ try:
             ok = ok and o2.strip() and all(l.startswith("test result: ok") for l in o2.strip().splitlines())
         res["pinned_suite_with_patch"] = "passes" if ok else "FAILS"
         os.rename(os.path.join(wt, "demo_seed.rs.off"), os.path.join(wt, "tests", "demo_seed.rs"))
-        rc, o = sh("cargo test --offline%s --test demo_seed 2>&1 | tail -30" % fflag, cwd=wt)
+        rc, o = sh("cargo test --offline%s --test demo_seed -- --test-threads=1 2>&1 | tail -30" % fflag, cwd=wt)
         res["demo_with_patch"] = "fails" if (rc != 0 or "FAILED" in o or not re.search(r"test result: ok", o)) else "passes (?)"
         res["confirmed"] = res["demo_on_clean_tree"] == "passes" and res["pinned_suite_with_patch"] == "passes" and res["demo_with_patch"] == "fails"
 finally:
